@@ -227,6 +227,15 @@ def run(c):
     c.assumptions += ["measure values are BIGINT / VARCHAR (exact arithmetic); avg compared numerically with DuckDB's double"]
     lib.regen_small(c, "_build_measure_aggregation_sql")
     lib.regen_cte(c)
+    try:
+        import os
+        from translator import gen_inherit
+        lib.write_if_changed(os.path.join(lib.COQ, "Gen", "Inherit_gen.v"), gen_inherit.generate(lib.REPO))
+        c.obligation("translator: merge_model (inheritance.py) on 35 scripted parents / children regenerated (Gen/Inherit_gen.v)", True, "translator")
+        c.obligation("translator validation: interpreted merge_model == the real function under CPython on the same scripted objects", gen_inherit.table(lib.REPO) == gen_inherit.table(lib.REPO, real=True), "translator")
+    except Exception as e:
+        c.obligation("translator: merge_model (inheritance.py) regenerated (Gen/Inherit_gen.v)", False, "translator", repr(e)[-900:])
+    c.trusted.append("translator/pyinterp.py + gen_inherit.py (fail-closed definitional interpreter; the two pydantic objects and the five constructors are scripted; validated against CPython each run)")
     c.build_props()
     n = 400 if c.tier == "quick" else 6000
     cases = [gen_case(c.rng) for _ in range(n)]
